@@ -342,11 +342,24 @@ def install_taps():
     region(FileSystem, "create_folder", "create_folder", fs_host, None, create_pre, create_post)
 
     # ---- folder restore
+    def restoring_pre(m, r, folder, a, k):
+        r.info["was_deleted"] = bool(folder.deleted)
+        r.info["countdown"] = folder.restore_countdown
+
     def restoring_post(m, r, folder, res, a, k):
         if r.info["calls"] or r.info["awrites"]:
             m.sh.completed("folder-restore", r.key)
+        if r.info["countdown"] == 1 and folder.restore_countdown == 0 and not r.info["was_deleted"]:
+            # the restore just completed: whatever happened to the folder while it was running (a second corrupt event, an overlapping scan
+            # that recomputed its health), a completed restore leaves the folder itself neither CORRUPT nor RESTORING. (What it does to
+            # the files is not in the statement: an un-deleted file keeps the health it was deleted with.)
+            m.cov.inc("folder_restore_completions_state_checked")
+            hs = folder.health_status.name
+            if hs in ("CORRUPT", "RESTORING"):
+                m.sh.sink(f"folder-restore-completes-without-restoring/{hs}",
+                          f"restore of {r.key} completed at tick {m.sh.now()} but the folder's true health is {hs}")
 
-    region(Folder, "_restoring_timestep", "restoring_tick", fsk, {"calls": 0, "awrites": 0}, None, restoring_post)
+    region(Folder, "_restoring_timestep", "restoring_tick", fsk, {"calls": 0, "awrites": 0}, restoring_pre, restoring_post)
 
     def restore_file_pre(folder, *a, **k):
         m = mon()
